@@ -9,17 +9,22 @@ Participants: four persistent task objects w = GenWf(program p, value set v) (2 
 Histories start from `Workflow.clear_cache()` and fresh task objects.
 
 Engine: breadth-first over canonical states, layer by layer.  The state lives in the interpreter (a class attribute
-plus live objects whose node `State`s are mutated by graph creation and by runs), so it is never copied: a state is
-expanded in a forked child that replays the state's representative history on the real code and then forks once per op;
-the grandchild executes the op, observes, computes the successor's canonical key and exits.  Every explored history
-is therefore one real, uncopied execution.
+plus live objects whose node `State`s are mutated by graph creation and by runs).  A state is expanded by really
+executing its representative history from clear_cache() and then applying each op to it; to get back to the state
+for the next op the history is executed again when it contains no run (a few ms), otherwise the state is restored
+from a deepcopy of (class-level cache, task objects) taken after the real execution, whose canonical key must equal
+the original's.  Every violation is re-confirmed by a plain linear execution of the whole history before it is
+reported.  Forking per op was tried and dropped: copy-on-write faults made it 100x slower than re-execution.
+All 24 ops are explored up to PLAN[0] ops; the states of the last layer that only involve one program are then
+expanded further with the 12 ops of that program up to PLAN[1] ops (ops on different programs only meet through the
+shared type hash of the generic workflow class).
 Canonical state = the cache's key structure (type hash, non-lazy key set, value hash) + a structural fingerprint of every
 cached Workflow object (inputs, node task inputs, every attribute of every node State) + per task object whether its
 memo is unset / aliases which cache entry / is a private copy (with its fingerprint).  Deliberately finer than the key
 structure alone: only states that agree on everything a later op can read are merged.
 
 Oracle (differential, on the last op of every history): outcome == the same op executed as a one-op history after
-`Workflow.clear_cache()` in a pristine process:
+`Workflow.clear_cache()` with fresh task objects:
   * construct ops: graph signature of the returned workflow (node names, edges, per node splitter / combiner /
     other_states keys after `graph()`, output wiring); observed on a deepcopy so that observing is not an op;
   * RUN: the outputs;
@@ -49,6 +54,7 @@ KINDS = ("LZ", "WC", "TC", "RUN")
 TOOL = 4
 OP_TIMEOUT = 90
 PLAN_QUICK = (3, 4)   # max history length: all 24 ops / the 12 ops of one program
+PLAN_THOROUGH = (4, 6)
 
 
 # ------------------------------------------------------------------ ops ---------------------------------------------
@@ -439,18 +445,16 @@ def work(part, chunk):
     fn.write_bytes(pickle.dumps(news))
 
 
-def search(ctx, label, ops, maxlen, scratch):
-    """layered BFS over canonical states with the op alphabet `ops`, histories of length <= maxlen"""
+def search(ctx, label, ops, first_len, maxlen, scratch, seen, frontier):
+    """layered BFS over canonical states with the op alphabet `ops`: expands `frontier` (states whose representative
+    histories have first_len - 1 ops) and goes on up to histories of length maxlen.  `seen` is updated in place."""
     from vt.par import pmap
     global _OPS, _OUT
     _OPS = ops
-    empty = linear([], scratch)
-    seen = {empty["key"]: []}
-    coarse_seen = {empty["coarse"]}
-    frontier = [(empty["key"], [])]
+    coarse_seen = set()
     layers = []
-    for depth in range(maxlen):
-        _OUT = ctx.scratch / f"layer-{label}-{depth}"
+    for length in range(first_len, maxlen + 1):
+        _OUT = ctx.scratch / f"layer-{label}-{length}"
         _OUT.mkdir()
         t0 = time.time()
         pmap(ctx, work, frontier, chunk=max(1, min(6, len(frontier) // (ctx.nproc * 4) or 1)))
@@ -465,14 +469,13 @@ def search(ctx, label, ops, maxlen, scratch):
             if k not in seen:
                 seen[k] = h
                 nxt.append((k, h))
-        layers.append(dict(history_length=depth + 1, expanded_states=len(frontier), transitions=len(cand),
+        layers.append(dict(history_length=length, expanded_states=len(frontier), transitions=len(cand),
                            new_states=len(nxt), wall_s=round(time.time() - t0, 1)))
         frontier = nxt
         if not frontier:
             break
-    return dict(alphabet=label, ops=len(ops), max_history_length=maxlen, states=len(seen),
-                states_by_key_structure_and_memo_only=len(coarse_seen), layers=layers,
-                fixed_point=not frontier), seen
+    return dict(alphabet=label, ops=len(ops), history_lengths=[first_len, maxlen], layers=layers,
+                key_structure_and_memo_classes=len(coarse_seen), fixed_point=not frontier), frontier
 
 
 def run(ctx):
@@ -489,26 +492,30 @@ def run(ctx):
             raise HarnessError(f"the one-op reference history {op} raised {r['raised']}: {r.get('error')}")
         _REF[canon(op)] = r
     nv = len(T.VALUES)
-    # (label, op alphabet, max history length).  Ops on different programs only meet through the shared type hash, so
-    # the longest histories are spent inside one program (both value sets, all six ops).
-    full, single = (5, 6) if ctx.thorough else (PLAN_QUICK)
-    plan = [("both-programs", ops, full)]
+    # Ops on different programs only meet through the shared type hash, so the longest histories are spent inside one
+    # program (both value sets, all six ops): all 24 ops up to `full`, then the single-program states of the last layer
+    # are expanded further with the 12 ops of their program up to `single`.
+    full, single = PLAN_THOROUGH if ctx.thorough else PLAN_QUICK
+    empty = linear([], scratch)
+    seen = {empty["key"]: []}
+    info, last = search(ctx, "both-programs", ops, 1, full, scratch, seen, [(empty["key"], [])])
+    searches = [info]
     for p in range(len(T.PROGRAMS)):
-        plan.append((f"program-{p}", [o for o in ops if o[1] // nv == p], single))
-    searches = []
-    for label, alphabet, maxlen in plan:
-        info, seen = search(ctx, label, alphabet, maxlen, scratch)
-        searches.append(info)
-        ctx.states += info["states"]
-        # determinism: the first and the last recorded history, twice each
-        longest = max(seen.values(), key=lambda h: (len(h), canon(h)))
-        for h in ([alphabet[0]], longest):
-            a, b = linear(h, scratch), linear(h, scratch)
-            if canon([a["obs"], a["key"]]) != canon([b["obs"], b["key"]]):
-                raise HarnessError(f"history {h} is not deterministic")
-            want = [k for k, v in seen.items() if v == h]
-            if want and a["key"] != want[0]:
-                raise HarnessError(f"history {h} reached {a['key']} instead of the recorded state {want[0]}")
+        if single > full and last:
+            mine = [(k, h) for k, h in last if all(o[1] // nv == p for o in h)]
+            info, _ = search(ctx, f"program-{p}-only", [o for o in ops if o[1] // nv == p], full + 1, single, scratch,
+                             seen, mine)
+            searches.append(info)
+    ctx.states = len(seen)
+    # determinism: the first and the last recorded history, twice each
+    longest = max(seen.values(), key=lambda h: (len(h), canon(h)))
+    for h in ([ops[0]], longest):
+        a, b = linear(h, scratch), linear(h, scratch)
+        if canon([a["obs"], a["key"]]) != canon([b["obs"], b["key"]]):
+            raise HarnessError(f"history {h} is not deterministic")
+        want = [k for k, v in seen.items() if v == h]
+        if want and a["key"] != want[0]:
+            raise HarnessError(f"history {h} reached {a['key']} instead of the recorded state {want[0]}")
     ctx.coverage["searches"] = searches
     ctx.coverage["branch_monitor"] = "sys.monitoring LINE events on Workflow.construct" if mon else \
         "unavailable (Workflow.construct no longer has the try/else + loop shape)"
